@@ -94,6 +94,10 @@ let () =
            let pre = if pre = "-" then "" else pre in
            let tok = label_token (codes pre) (codes name) width in
            Printf.printf "%s\n" (String.concat "" (List.map (fun c -> String.make 1 (Char.chr (int_of_nat c))) tok))
+         | "ABFHIST" ->
+           let hf = nz () in let n = ni () in
+           let w = List.init n (fun _ -> nz ()) in
+           Printf.printf "%s\n" (String.concat " " (List.map (fun it -> string_of_int (int_of_z it)) (abf_hist hf None w)))
          | "OUT" ->
            let rf = nz () in let itr = nz () in let nbs = ni () in
            let bs = List.init nbs (fun _ -> let b = nz () in let f = nz () in (b, f)) in
